@@ -58,6 +58,16 @@ def base_reactor():
     return _BASE["o"], _BASE["r"]
 
 
+def fresh_reactor(track):
+    """A freshly loaded reference reactor with its spent-fuel pool (copy.deepcopy of a Reactor drops excore['sfp'] and
+    the pool's name-table entries, so every case loads its own; ~2 s)."""
+    from armi.reactor.tests.test_reactors import loadTestReactor
+    from armi.tests import TEST_ROOT
+    with common.scratch_dir(), common.quiet():
+        o, r = loadTestReactor(TEST_ROOT, customSettings={"trackAssems": bool(track)})
+    return o, r
+
+
 def cell_of(a):
     idx = a.spatialLocator.indices
     return (int(idx[0]), int(idx[1]))
@@ -85,9 +95,7 @@ def build_case(spec):
     import random
     from armi.reactor.converters import geometryConverters as gc
 
-    o, r0 = base_reactor()
-    with common.quiet():
-        r = copy.deepcopy(r0)
+    o, r = fresh_reactor(spec.get("track", False))
     core = r.core
     holes = {tuple(h) for h in spec["holes"]}
     for a in list(core):
@@ -111,6 +119,14 @@ def build_case(spec):
             shared = np.array([rng.randint(0, 512) / 8.0, rng.randint(0, 512) / 8.0])
             for b in a:
                 b.p[LISTPARAM] = shared
+    # what the name tables and the pool hold besides the core children (pool assemblies, blueprint / load-queue
+    # assemblies): must be exactly this after every operation
+    sfp = r.excore.get("sfp")
+    here = {id(a) for a in core} | ({id(a) for a in sfp} if sfp is not None else set())
+    hereb = {id(b) for a in core for b in a} | ({id(b) for a in sfp for b in a} if sfp is not None else set())
+    r._verifExtraA = {k: id(v) for k, v in core.assembliesByName.items() if id(v) not in here}
+    r._verifExtraB = {k: id(v) for k, v in core.blocksByName.items() if id(v) not in hereb}
+    r._verifSfp = [(id(a), a.name, tuple(id(b) for b in a)) for a in sfp] if sfp is not None else None
     return o, r
 
 
@@ -137,10 +153,13 @@ def canon_state(r, ch, ec):
         c = cell_of(a)
         kids.append("[%d,%d,%d,%d,%d,%s]" % (a.getNum(), c[0], c[1], getattr(a, "_verifSrc", -1),
                                               int(round(float(a[0].p.orientation[2]))), common.ratlist(par_of(a))))
-    return "full=%s next=%d convAdded=%s edgeAdded=%s kids=[%s]" % (
+    sfp = r.excore.get("sfp")
+    skip = set(getattr(r, "_verifExtraA", {}).values()) | ({id(a) for a in sfp} if sfp is not None else set())
+    names = sorted(v.getNum() for v in core.assembliesByName.values() if id(v) not in skip)
+    return "full=%s next=%d convAdded=%s edgeAdded=%s kids=[%s] names=%s" % (
         "T" if core.isFullCore else "F", int(r.p.maxAssemNum),
         common.intlist(a.getNum() for a in ch._newAssembliesAdded),
-        common.intlist(a.getNum() for a in ec._newAssembliesAdded), ",".join(kids))
+        common.intlist(a.getNum() for a in ec._newAssembliesAdded), ",".join(kids), common.intlist(names))
 
 
 def init_line(r):
@@ -218,18 +237,36 @@ def lookups_ok(r, fails, case, tag):
     sfp = r.excore.get("sfp")
     sfpnames = {a.name for a in sfp} if sfp is not None else set()
     bn = core.assembliesByName
-    stale = [n for n in bn if n not in set(names) and n not in sfpnames]
+    extraA = getattr(r, "_verifExtraA", {})
+    stale = [n for n in bn if n not in set(names) and n not in sfpnames and extraA.get(n) != id(bn[n])]
     missing = [a.name for a in kids if bn.get(a.name) is not a]
+    missing += [n for n, i in extraA.items() if n not in bn or id(bn[n]) != i]
+    if sfp is not None:
+        missing += [a.name for a in sfp if bn.get(a.name) is not a]
     if stale or missing:
         fails.append(Failure("byname-truthful", "assembliesByName resolves exactly the assemblies present", case,
                              observed={"stale": stale[:4], "missing": missing[:4]}, note=tag))
     bb = core.blocksByName
     bmissing = [b.name for a in kids for b in a if bb.get(b.name) is not b]
     present = {b.name for a in kids for b in a} | ({b.name for a in sfp for b in a} if sfp is not None else set())
-    bstale = [n for n in bb if n not in present]
+    extraB = getattr(r, "_verifExtraB", {})
+    bstale = [n for n in bb if n not in present and extraB.get(n) != id(bb[n])]
+    if sfp is not None:
+        bmissing += [b.name for a in sfp for b in a if bb.get(b.name) is not b]
     if bmissing or bstale:
         fails.append(Failure("blocksbyname-truthful", "blocksByName resolves exactly the blocks present", case,
                              observed={"stale": bstale[:4], "missing": bmissing[:4]}, note=tag))
+
+
+    snap = getattr(r, "_verifSfp", None)
+    if snap is not None:
+        now = [(id(a), a.name, tuple(id(b) for b in a)) for a in sfp]
+        if now != snap:
+            fails.append(Failure("sfp-untouched", "geometry conversions neither add to nor take from the spent-fuel pool "
+                                 "(transient copies are purged, not discharged)", case,
+                                 observed={"before": len(snap), "after": len(now),
+                                           "new": [n for (_, n, _) in now if n not in {m for (_, m, _) in snap}][:4]},
+                                 note=tag))
 
 
 def close(x, y, tol=1e-9):
@@ -287,7 +324,7 @@ def run_case(ctx, spec, ops, compare=True):
         except Exception as e:  # noqa
             raised = e
         ctx.count("op " + op + (" (raised)" if raised is not None else ""))
-        ctx.distinct.add(("op", op, was_full, shape_before, spec["rings"], len(spec["holes"]), bool(spec.get("edges0")),
+        ctx.distinct.add(("op", op, was_full, bool(spec.get("track")), shape_before, spec["rings"], len(spec["holes"]), bool(spec.get("edges0")),
                           spec.get("arr", "list"), "ok" if raised is None else type(raised).__name__))
         req.append(op)
         if raised is not None:
@@ -442,7 +479,7 @@ def gen_spec(rng, kind):
         holes = []
     edges0 = kind == "plain" and rng.random() < 0.25
     return {"rings": rings, "holes": sorted(holes), "edges0": edges0, "vseed": rng.randint(0, 10 ** 6),
-            "arr": rng.choice(["list", "array", "aliased"])}
+            "arr": rng.choice(["list", "array", "aliased"]), "track": rng.random() < 0.5}
 
 
 def gen_ops(rng, n):
@@ -459,10 +496,12 @@ def in_model_domain(spec, ops):
 
 def run(ctx):
     rng = ctx.rng
-    ncases = ctx.pick(15, 150)
+    ncases = ctx.pick(16, 150)
     plan = []
     # fixed corpus first: the design-round probes and the excluded points
     plan.append(({"rings": 9, "holes": [], "edges0": False, "vseed": 1}, ["convert", "restore"]))
+    plan.append(({"rings": 6, "holes": [], "edges0": False, "vseed": 11, "track": True},
+                 ["convert", "restore", "addEdge", "removeEdge", "convert", "restore", "addEdge", "removeEdge"]))
     plan.append(({"rings": 5, "holes": [], "edges0": False, "vseed": 7, "arr": "aliased"},
                  ["addEdge", "removeEdge", "convert", "restore", "addEdge", "removeEdge"]))
     plan.append(({"rings": 9, "holes": [], "edges0": False, "vseed": 2}, ["addEdge", "convert", "restore"]))      # F10
@@ -506,7 +545,8 @@ def run(ctx):
                 break
     ctx.compare("Model/Sym3.lean inDomain/lines vs HexGrid", dom_cases, mdom, dom_impl)
     ctx.evaluations += len(allreq) + len(dom_req)
-    ctx.rule = ("generated: reference third-core hex reactor cut down to 1-9 rings with random holes (0/10/30 %), with or "
+    ctx.rule = ("every case on a freshly loaded reactor with its spent-fuel pool, trackAssems on or off (the pool and the full "
+                "name tables must be what they were after every operation); generated: reference third-core hex reactor cut down to 1-9 rings with random holes (0/10/30 %), with or "
                 "without pre-existing edge assemblies, random dyadic block parameters; random sequences (2-10) of "
                 "convert / restore / addEdge / removeEdge on persistent changer objects; excluded points (no centre "
                 "assembly, centre only, no cell with j<0 after a flag-resetting addEdge) as separate cases. distinct = "
